@@ -1782,6 +1782,16 @@ func TestDriverBlocks(t *testing.T) {
 				}
 				// a bank send moves exactly the declared coins and never changes a supply; a failed transaction moves nothing but the fee
 				checkOther(o, expF, "C04/blocks/cosmos-", desc)
+				// the EVM module's own account holds nothing after ANY transaction (a bank send to its address is refused)
+				for _, dn := range append([]string{c.Denom()}, sortedDenoms(o, nil)...) {
+					d := o.delta[w.evmModule]
+					if dn != c.Denom() {
+						d = o.fdelta[dn][w.evmModule]
+					}
+					if d != nil && d.Sign() != 0 {
+						side.Hit("C04/blocks/evm-module-balance-nonzero", fmt.Sprintf("bank events of the Cosmos transaction leave %s%s on the EVM module account", d, dn), desc)
+					}
+				}
 				if okMsgs {
 					side.Count(fmt.Sprintf("cosmos-send:coins=%d", len(g.Sends)))
 					for _, sd := range g.Sends {
